@@ -88,6 +88,16 @@ def run(ctx):
         # --max-stack overflow is C02's subject; with filters the two hook families use the shadow
         # stack differently by design (cygprof must push a frame for every call), so it is kept out here
         o.max_stack = None
+        if not core and rng.random() < 0.3:
+            # directed family: a large -t with a trigger that lowers the threshold (or forces tracing) for
+            # some function, so that short-running ancestors get their ENTRY flushed by a recorded descendant
+            o = mcgen.Opts()
+            o.t = rng.choice([60, 200, 1000])
+            o.patt = rng.choice(["regex", "glob", "simple"])
+            for fn in rng.sample(list(range(9)), rng.randint(1, 2)):
+                o.T.append((fn, [rng.choice([("time", 1), ("time", 5), ("trace", None)])]))
+            if rng.random() < 0.3:
+                o.D = rng.randint(2, 5)
         if core:      # option sets whose documented meaning is unambiguous
             o.C, o.L, o.Z, o.T, o.trace_off, o.max_stack = [], None, None, [], False, None
         ops = mcgen.rand_forest(rng, max_calls=rng.choice([8, 20, 40]), max_depth=rng.choice([3, 5, 7]))
